@@ -11,7 +11,7 @@ import z3
 from pyvc import sym, Unsupported
 from pyvc.sym import V, I, B, VBool, VInt, VObj, VTup, VSeq, VMap, VRec, VCls, VNone, VDict, VStr
 from pyvc.contract import (contract, lemma, specfn, audit, Desc, INT, NAT, POS, BOOL, STR, NONE, OBJ, OBJ_NN, LIST, Str, Seq,
-                           Obj, Cls, Rec, Tup, TRUE, FALSE, Int)
+                           Obj, Cls, Rec, Tup, TRUE, FALSE, Int, Const)
 from pyvc.models import RecordModel
 from pyvc.exec import Frame
 
@@ -158,13 +158,19 @@ class CTX_ENTER:
              "int-route,limit": dict(self=Rec("RuntimeContext", options=Rec("Options", max_depth=INT)), route=INT, options=NONE),
              "str-route,limit": dict(self=Rec("RuntimeContext", options=Rec("Options", max_depth=INT)), route=STR, options=NONE),
              "other-route,limit": dict(self=Rec("RuntimeContext", options=Rec("Options", max_depth=INT)), route=OBJ_NN, options=NONE),
+             "str-route,stage-options": dict(self=Rec("RuntimeContext", options=Rec("Options", max_depth=NONE, override=FALSE)), route=STR,
+                                             options=Const(lambda ex: ex.world.models["Options"].construct(
+                                                 ex, None, [], {"no_data_loss": VBool(True), "no_explicit_cast": VBool(True)}, None),
+                                                 name="Options(no_data_loss=True, no_explicit_cast=True)")),
              }
     result = Rec("RuntimeContext")
-    result_fields = {"context": "self", "options": "self.options", "cls": "self.cls", "force_error": "self.force_error"}
+    result_fields = {"context": "self", "options": "merge(self.options, options)", "cls": "self.cls", "force_error": "self.force_error"}
     requires = {"parent_within_limit": "self.options.max_depth is None or self.options.max_depth == 0 or self.depth <= self.options.max_depth"}
     returns = {
         "same_depth": "result.depth == self.depth",
-        "same_options": "result.options is self.options",
+        "same_options": "implies(options is None, result.options is self.options)",
+        "same_limit_and_collection": "result.options.max_depth is self.options.max_depth and result.options.collect_errors is self.options.collect_errors"
+                                     " and result.options.max_errors is self.options.max_errors",
         "child_of_self": "result.context is self and result.force_error is self.force_error and result.cls is self.cls",
         "own_empty_error_lists": "len(result.errors) == 0 and len(result.tmp_errors) == 0",
         "parent_untouched": "len(self.errors) == old(len(self.errors)) and len(self.tmp_errors) == old(len(self.tmp_errors))",
@@ -246,7 +252,7 @@ class CLEAR_TMP:
     cases = {"any": dict(self=Rec("RuntimeContext"))}
     returns = {"cleared": "len(self.tmp_errors) == 0", "errors_untouched": "len(self.errors) == old(len(self.errors))"}
     only_raises = []
-    modifies = ["self"]
+    modifies = ["self.tmp_errors"]
 
 
 @contract(F, "Options.make_context", props=["C18"])
